@@ -58,9 +58,8 @@ Section Tie.
     destruct (fold_right _ _ (clo_get clo s_n)) as [want|]; [|reflexivity].
     unfold set_eqb, fs_eqb.
     destruct (same_keys_z _ want); simpl; [|reflexivity].
-    match goal with |- (if forallb ?f ?l then true else false) = forallb ?g ?l => assert (E : forallb f l = forallb g l) end.
-    { induction (clo_get clo s_n) as [|[m bd] l IH]; simpl; [reflexivity|]. rewrite IH. reflexivity. }
-    rewrite E. destruct (forallb _ _); reflexivity.
+    match goal with |- (if ?x then true else false) = ?y => replace y with x; [destruct x; reflexivity|] end.
+    induction (clo_get clo s_n) as [|[m bd] l IH]; simpl; [reflexivity|]. rewrite IH. reflexivity.
   Qed.
 
   (* the matcher of Model.Iso with both hand-written tests replaced by the translated ones *)
@@ -124,3 +123,45 @@ Example cand_ok_generated_triangle :
   g_cand_ok Z.eqb Z.eqb [(3, [(1, 1)])] ta tb [1; 2; 3] [(1, 1); (2, 2)] (swap_mapping [(1, 1); (2, 2)]) 2 3 6 (Some 1) 3 1 = true /\
   g_cand_ok Z.eqb Z.eqb [] ta tb [1; 2; 3] [(1, 1); (2, 2)] (swap_mapping [(1, 1); (2, 2)]) 2 3 6 (Some 1) 3 1 = false.
 Proof. split; vm_compute; reflexivity. Qed.
+
+(* ---------------------------------------------------------------------------------------------------------------------------------- *)
+(* the automorphism-filter block of Isomorphism._get_mapping: Model.Iso.auto_filter is the translated step run along the stream with
+   ONE `seen` for the whole call (the translator checks that `seen = set()` stands once, in the method body, before the split) *)
+Fixpoint filter_stream (flt : bool) (seen : list (list Z)) (ms : list mapping) : list mapping :=
+  match ms with
+  | [] => []
+  | m :: r =>
+      match g_filter_step flt seen m with
+      | (Some y, seen') => y :: filter_stream flt seen' r
+      | (None, seen') => filter_stream flt seen' r
+      end
+  end.
+
+Theorem auto_filter_generated : forall flt seen ms, auto_filter flt seen ms = filter_stream flt seen ms.
+Proof.
+  intros flt seen ms. revert seen. induction ms as [|m r IH]; intros seen; simpl; [reflexivity|].
+  unfold g_filter_step. destruct flt; [|rewrite IH; reflexivity].
+  destruct (existsb (fs_eqb (image m)) seen); rewrite IH; reflexivity.
+Qed.
+
+(* ---------------------------------------------------------------------------------------------------------------------------------- *)
+(* the neighbour loop of _compile_query: Model.Iso.cq_scan is the translated iteration folded over reversed(bonds[front].items()) *)
+Fixpoint cq_scan_gen {QA QB : Type} (atoms : list (Z * QA)) (front : Z) (back : option Z) (seen : list Z) (nbs : list (Z * QB))
+         (stack : list (lentry QA QB)) (clo : closures_t QB) : pyres (list (lentry QA QB) * closures_t QB) :=
+  match nbs with
+  | [] => Ok (stack, clo)
+  | (n, bond) :: r =>
+      match g_scan_step atoms front back seen n bond stack clo with
+      | Err e => Err e
+      | Ok (stack', clo') => cq_scan_gen atoms front back seen r stack' clo'
+      end
+  end.
+
+Theorem cq_scan_generated : forall (QA QB : Type) (atoms : list (Z * QA)) front back seen (nbs : list (Z * QB)) stack clo,
+  cq_scan atoms front back seen nbs stack clo = cq_scan_gen atoms front back seen nbs stack clo.
+Proof.
+  intros QA QB atoms front back seen nbs. induction nbs as [|[n bond] r IH]; intros stack clo; simpl; [reflexivity|].
+  unfold g_scan_step. destruct (opt_is back n); simpl; [apply IH|].
+  destruct (zmem n seen); simpl; [apply IH|].
+  destruct (zget atoms n); [apply IH|reflexivity].
+Qed.
